@@ -175,6 +175,11 @@ func sraRound(pkgs []*packages.Package, overlay map[string][]byte) (map[string][
 							}
 						}
 					case *ast.ValueSpec:
+						if !isDef && len(p.Names) == 1 && len(p.Values) == 1 && p.Values[0] == ast.Expr(id) {
+							if lv, ok := pkg.TypesInfo.Defs[p.Names[0]].(*types.Var); ok && cands[lv] != nil && types.Identical(lv.Type(), v.Type()) {
+								return true // rewritten with the declaration (var-copy)
+							}
+						}
 						if isDef && len(p.Names) > 1 && len(p.Values) == 0 {
 							uses = append(uses, use{"var-multi", p, sv, nil})
 							return true
@@ -184,14 +189,21 @@ func sraRound(pkgs []*packages.Package, overlay map[string][]byte) (map[string][
 								uses = append(uses, use{"var", p, sv, nil})
 								return true
 							}
-							if cl, ok := p.Values[0].(*ast.CompositeLit); ok && len(p.Values) == 1 && types.Identical(pkg.TypesInfo.TypeOf(cl), sv.named) {
+							if cl, ok := unparen(p.Values[0]).(*ast.CompositeLit); ok && len(p.Values) == 1 && types.Identical(pkg.TypesInfo.TypeOf(cl), sv.named) {
 								uses = append(uses, use{"var-lit", p, sv, cl})
 								return true
+							}
+							// var x T = y, y another candidate of the same type
+							if rid, ok := p.Values[0].(*ast.Ident); ok && len(p.Values) == 1 {
+								if rv, ok := pkg.TypesInfo.Uses[rid].(*types.Var); ok && cands[rv] != nil && types.Identical(rv.Type(), v.Type()) {
+									uses = append(uses, use{"var-copy", p, sv, rid})
+									return true
+								}
 							}
 						}
 					case *ast.AssignStmt:
 						if len(p.Lhs) == 1 && len(p.Rhs) == 1 && p.Lhs[0] == ast.Expr(id) {
-							if cl, ok := p.Rhs[0].(*ast.CompositeLit); ok && types.Identical(pkg.TypesInfo.TypeOf(cl), sv.named) {
+							if cl, ok := unparen(p.Rhs[0]).(*ast.CompositeLit); ok && types.Identical(pkg.TypesInfo.TypeOf(cl), sv.named) {
 								if p.Tok == token.DEFINE && isDef {
 									uses = append(uses, use{"define-lit", p, sv, cl})
 									return true
@@ -212,6 +224,78 @@ func sraRound(pkgs []*packages.Package, overlay map[string][]byte) (map[string][
 								return true
 							}
 						}
+					}
+					// a tuple assignment `a, err = T{…}, x` / `a, err = b, x`: expanded in place
+					if as, ok := parent.(*ast.AssignStmt); ok && len(as.Lhs) == len(as.Rhs) && len(as.Lhs) >= 2 && as.Tok == token.ASSIGN {
+						okTuple := true
+						mine := false
+						for k := range as.Lhs {
+							lid, lIsId := as.Lhs[k].(*ast.Ident)
+							var lv *types.Var
+							if lIsId {
+								lv, _ = pkg.TypesInfo.Uses[lid].(*types.Var)
+							}
+							rid, rIsId := as.Rhs[k].(*ast.Ident)
+							var rv *types.Var
+							if rIsId {
+								rv, _ = pkg.TypesInfo.Uses[rid].(*types.Var)
+							}
+							lc, rc := lv != nil && cands[lv] != nil, rv != nil && cands[rv] != nil
+							if lIsId && lid == id || rIsId && rid == id {
+								mine = true
+							}
+							switch {
+							case lc && rc:
+								if !types.Identical(lv.Type(), rv.Type()) {
+									okTuple = false
+								}
+							case lc:
+								cl, isLit := unparen(as.Rhs[k]).(*ast.CompositeLit)
+								if !isLit || !types.Identical(pkg.TypesInfo.TypeOf(cl), lv.Type()) {
+									okTuple = false
+								} else if _, okLit := litFieldsOf(cands[lv], cl, text); !okLit {
+									okTuple = false
+								}
+							case rc:
+								okTuple = false // a candidate read as a whole into something else: handled as "rebuild"
+							}
+						}
+						if okTuple && mine {
+							uses = append(uses, use{"tuple", as, sv, nil})
+							return true
+						}
+					}
+					// a copy between two candidates of the same type: field by field
+					if as, ok := parent.(*ast.AssignStmt); ok && len(as.Lhs) == 1 && len(as.Rhs) == 1 && (as.Tok == token.ASSIGN || as.Tok == token.DEFINE) {
+						l, lok := as.Lhs[0].(*ast.Ident)
+						r, rok := as.Rhs[0].(*ast.Ident)
+						if lok && rok {
+							var lv, rv *types.Var
+							if o, ok := pkg.TypesInfo.Defs[l].(*types.Var); ok {
+								lv = o
+							} else if o, ok := pkg.TypesInfo.Uses[l].(*types.Var); ok {
+								lv = o
+							}
+							if o, ok := pkg.TypesInfo.Uses[r].(*types.Var); ok {
+								rv = o
+							}
+							if lv != nil && rv != nil && cands[lv] != nil && cands[rv] != nil && types.Identical(lv.Type(), rv.Type()) {
+								if id == l {
+									kind := "copy-assign"
+									if as.Tok == token.DEFINE {
+										kind = "copy-define"
+									}
+									uses = append(uses, use{kind, as, sv, r})
+								}
+								return true // the right-hand side is rewritten with the statement
+							}
+						}
+					}
+					// read as a whole (an operand, an argument, a value stored somewhere else):
+					// rebuilt from its fields as a composite literal
+					if !isDef && wholeReadContext(parent, id) && structFile[sv.named.Obj().Name()] != nil {
+						uses = append(uses, use{"rebuild", id, sv, nil})
+						return true
 					}
 					bad[v] = "used as a whole"
 					return true
@@ -314,6 +398,84 @@ func sraRound(pkgs []*packages.Package, overlay map[string][]byte) (map[string][
 						edits = append(edits, edit{off(se.Pos()), off(se.End()), sraName(v, se.Sel.Name)})
 					case "blank":
 						edits = append(edits, edit{off(u.node.Pos()), off(u.node.End()), ""})
+					case "var-copy":
+						src2 := cands[pkg.TypesInfo.Uses[u.extra.(*ast.Ident)].(*types.Var)]
+						if src2 == nil || bad[src2.obj] != "" {
+							break
+						}
+						var rhs []string
+						for _, fn := range sv.fields {
+							rhs = append(rhs, sraName(src2.obj.Name(), fn))
+						}
+						edits = append(edits, edit{off(u.node.Pos()) - len("var "), off(u.node.End()), declare() + strings.Join(names, ", ") + " = " + strings.Join(rhs, ", ")})
+					case "tuple":
+						if multiDone[u.node] {
+							break
+						}
+						multiDone[u.node] = true
+						as := u.node.(*ast.AssignStmt)
+						var lhs, rhs []string
+						okT := true
+						for k := range as.Lhs {
+							lid, _ := as.Lhs[k].(*ast.Ident)
+							var lv *types.Var
+							if lid != nil {
+								lv, _ = pkg.TypesInfo.Uses[lid].(*types.Var)
+							}
+							if lv == nil || cands[lv] == nil {
+								lhs = append(lhs, text(as.Lhs[k]))
+								rhs = append(rhs, text(as.Rhs[k]))
+								continue
+							}
+							if bad[lv] != "" {
+								okT = false
+								break
+							}
+							for _, fn := range cands[lv].fields {
+								lhs = append(lhs, sraName(lv.Name(), fn))
+							}
+							if rid, isId := as.Rhs[k].(*ast.Ident); isId {
+								rv, _ := pkg.TypesInfo.Uses[rid].(*types.Var)
+								if rv == nil || cands[rv] == nil || bad[rv] != "" {
+									okT = false
+									break
+								}
+								for _, fn := range cands[rv].fields {
+									rhs = append(rhs, sraName(rv.Name(), fn))
+								}
+								continue
+							}
+							vals, okV := litFieldsOf(cands[lv], unparen(as.Rhs[k]).(*ast.CompositeLit), text)
+							if !okV {
+								okT = false
+								break
+							}
+							rhs = append(rhs, vals...)
+						}
+						if okT {
+							edits = append(edits, edit{off(as.Pos()), off(as.End()), strings.Join(lhs, ", ") + " = " + strings.Join(rhs, ", ")})
+						}
+					case "rebuild":
+						var parts []string
+						for i, fn := range sv.fields {
+							parts = append(parts, fn+": "+names[i])
+						}
+						id := u.node.(*ast.Ident)
+						edits = append(edits, edit{off(id.Pos()), off(id.End()), "(" + sv.named.Obj().Name() + "{" + strings.Join(parts, ", ") + "})"})
+					case "copy-assign", "copy-define":
+						src2 := cands[pkg.TypesInfo.Uses[u.extra.(*ast.Ident)].(*types.Var)]
+						if src2 == nil || bad[src2.obj] != "" {
+							break
+						}
+						var rhs []string
+						for _, fn := range sv.fields {
+							rhs = append(rhs, sraName(src2.obj.Name(), fn))
+						}
+						pre := ""
+						if u.kind == "copy-define" {
+							pre = declare()
+						}
+						edits = append(edits, edit{off(u.node.Pos()), off(u.node.End()), pre + strings.Join(names, ", ") + " = " + strings.Join(rhs, ", ")})
 					case "var-multi":
 						if multiDone[u.node] {
 							break
@@ -708,4 +870,84 @@ func unboxRound(pkgs []*packages.Package, overlay map[string][]byte, counter *in
 		out[fn] = buf
 	}
 	return out, log
+}
+
+// wholeReadContext: the identifier is read as a value (not assigned to, not
+// addressed, not the base of a selector or an index, not ranged over into).
+func wholeReadContext(parent ast.Node, id *ast.Ident) bool {
+	switch p := parent.(type) {
+	case *ast.AssignStmt:
+		for _, l := range p.Lhs {
+			if l == ast.Expr(id) {
+				return false
+			}
+		}
+		return true
+	case *ast.ReturnStmt, *ast.CallExpr, *ast.KeyValueExpr, *ast.CompositeLit, *ast.SendStmt, *ast.ParenExpr:
+		if ce, ok := p.(*ast.CallExpr); ok && ce.Fun == ast.Expr(id) {
+			return false
+		}
+		return true
+	case *ast.BinaryExpr:
+		return p.Op == token.EQL || p.Op == token.NEQ
+	case *ast.ValueSpec:
+		for _, v := range p.Values {
+			if v == ast.Expr(id) {
+				return true
+			}
+		}
+	}
+	return false
+}
+
+// litFieldsOf: the values a composite literal gives to the fields of sv, in
+// field order (zero values spelled *new(T)).
+func litFieldsOf(sv *sraVar, cl *ast.CompositeLit, text func(ast.Node) string) ([]string, bool) {
+	vals := make([]string, len(sv.fields))
+	for i := range vals {
+		vals[i] = "*new(" + sv.ftext[i] + ")"
+	}
+	if len(cl.Elts) == 0 {
+		return vals, true
+	}
+	if _, keyed := cl.Elts[0].(*ast.KeyValueExpr); keyed {
+		for _, e := range cl.Elts {
+			kv, ok := e.(*ast.KeyValueExpr)
+			if !ok {
+				return nil, false
+			}
+			k, ok := kv.Key.(*ast.Ident)
+			if !ok {
+				return nil, false
+			}
+			found := false
+			for i, fn := range sv.fields {
+				if fn == k.Name {
+					vals[i] = text(kv.Value)
+					found = true
+				}
+			}
+			if !found {
+				return nil, false
+			}
+		}
+		return vals, true
+	}
+	if len(cl.Elts) != len(sv.fields) {
+		return nil, false
+	}
+	for i, e := range cl.Elts {
+		vals[i] = text(e)
+	}
+	return vals, true
+}
+
+func unparen(e ast.Expr) ast.Expr {
+	for {
+		p, ok := e.(*ast.ParenExpr)
+		if !ok {
+			return e
+		}
+		e = p.X
+	}
 }
